@@ -48,7 +48,7 @@ def check(module, init, inv, length, cinit=None, subst=None, timeout=900):
     shutil.rmtree(sdir, ignore_errors=True)
     if re.search(r'The outcome is: NoError', out) and p.returncode == 0:
         return Result(True, None, out, wall)
-    m = re.search(r'state invariant (\d+) violated', out)
+    m = re.search(r'(?:state|action) invariant (\d+) violated', out)
     if re.search(r'The outcome is: Error', out) and m:
         return Result(False, 'invariant conjunct %s' % m.group(1), out, wall)
     raise tlc.MachineryError('apalache failed on %s (%s => %s): %s' % (module, init, inv, out[-1500:]))
